@@ -1153,11 +1153,12 @@ def rule_j1(A: Analysis, rep):
     allok = True
     det = []
     for r in rets:
-        tx = norm(r.ast.value)
-        if tx == "1" or tx == "multiprocessing.cpu_count()":
+        tx = A.xtext(r.ast.value, vf)       # locals (a copy of args.jobs, a named default) expanded
+        folded = A.prog.fold(vf.module, A.expand(r.ast.value, vf))
+        if tx == "1" or tx == "multiprocessing.cpu_count()" or (isinstance(folded, int) and not isinstance(folded, bool) and folded >= 1):
             continue
         if tx == "args.jobs":
-            gs = A.path_guards(g, g.entry, r, vf)
+            gs = A.path_guards(g, g.entry, r, vf, xstop=[])
             if all(("lt(0,args.jobs)", True) in c or ("lt(args.jobs,1)", False) in c for c in gs) and gs:
                 continue
         allok = False
